@@ -129,6 +129,22 @@ CHECKS["C17"] = dict(
          "rewritten variant (alias inlined, parentheses, `-> ()`, block arms) must be accepted with the model's verdicts.",
     note=PROG_NOTE + " Identifiers that are exactly reserved words carry no expectation.", design="5 (C17)")
 
+CHECKS["C06"] = dict(
+    category="exploration",
+    technique="TLA+ token-mutation machine (MC_Mutate: insert/delete/replace/duplicate over a grammar lexicon, depth 2) enumerated by TLC; every mutant pushed through all text entry points under catch_unwind / process isolation",
+    text="~145k grammar-aware mutants of programs, modules, JSON maps, values and types in 7 layouts plus seeded raw random strings and bracket "
+         "nests to depth 12: every entry point must return Ok or Err (no panic, abort, stack overflow, hang), including error rendering.",
+    note="TLA+ supplies the systematically enumerated input space and the Ok/Err/Panicked lifecycle; the deciding observation is the real call. "
+         "Resource exhaustion by astronomically large array sizes (e.g. `[u8; 4294967296]`, minutes of CPU / tens of GB) is outside the "
+         "enumerated space (DESIGN.md section 9).", design="5 (C06)")
+CHECKS["C20"] = dict(
+    category="model_checking",
+    technique="trace validation: records of rendered error messages (file code points, quoted rows, description) checked by TLC against TraceSpans.tla",
+    text="Rejected near-miss programs, rejected literals and rejected token mutants in 6-7 layouts (CRLF, tabs, multi-byte comments, one token "
+         "per line): every `N | text` row must be line N of the file (LF / CRLF terminators), consecutive, existing; description last.",
+    note="The driver only splits the message into rows; the judgement (what the lines of a file are, what a valid record is) is the TLA+ "
+         "specification's. Quick tier validates 5000 distinct records (all family records + an even sample of mutants).", design="5 (C20)")
+
 PENDING = {}
 
 ALL = ["C%02d" % i for i in range(1, 21)]
